@@ -239,6 +239,8 @@ func run(r *core.Run) {
 		"load-string {default, :exact-integers, :string-numbers}, load-bytes, load-message and equal?. " +
 		"D: every token sequence of length <= L over the 31-token document alphabet (concatenated without separators) and every byte string of length <= 2, " +
 		"through load-string, load-bytes, load-message x the four (:string-numbers, :exact-integers) keyword combinations (sequences of 5 tokens, thorough only: load-string x 4 modes, load-bytes :exact-integers, load-message default), plus load-string under the four json:use-* default combinations for the shorter sequences. " +
+		"H: every dump history of the shapes {bad,fix,good | bad,bad,fix,good | good,poison,bad,fix,good | bad,fix,good-rewrapped | bad,other-good,fix,good} over towers of maps / vectors / lists-in-maps of the stated depths (around the encoder's 64-level second pass), " +
+		"failing leaf in {NaN,+Inf,-Inf,lambda,self-reference,reference to the root} set and repaired IN PLACE with assoc!/dissoc!, through dump-string / dump-bytes / dump-message with and without :string-numbers (failing and final dump through the same form, plus every pair of different forms at depth 80); non-trivial history = the tower reaches the second pass. " +
 		"Non-trivial value = a container, a float, an int beyond 2^53 or a string needing an escape/non-ASCII (distinct by rendering); non-trivial document = the reference recogniser accepts it (distinct by bytes). " +
 		"states = enumerated terms (values + token sequences + byte strings; distinct token sequences may concatenate to the same bytes), transitions = json:* calls compared with the reference.")
 	r.Assume("oracle = own RFC 8259 recogniser/decoder (no encoding/json, no strconv float parsing, no unicode/utf8); a number means the float64 nearest to its exact decimal value (math/big, ties to even), -0 keeps its sign")
@@ -248,7 +250,11 @@ func run(r *core.Run) {
 	r.Assume("canonical float text = the shortest decimal that decodes to the float (closest such), laid out like ECMAScript Number::toString (plain digits for 1e-6 <= |x| < 1e21 as docs/lang.md states, d.ddde±x otherwise), -0 as \"-0\" (lang.md)")
 	r.Assume("UNSPECIFIED (only 'no host panic' and, for dump, 'no invalid document' are asserted): NaN and the infinities; a syntactically valid document holding a number beyond the float64 range (1e999) outside :string-numbers - any outcome except json:syntax-error; a document with ill-formed UTF-8 inside a string - accepted or rejected, structure compared when accepted; the content of a string written with an unpaired \\uD800-style escape (must be accepted)")
 	r.Assume("duplicate member names: last wins; under :exact-integers '-0' stays a float and an oversized integer literal that is already canonical float text (10000000000000000000) loads as that float - both as documented in docs/lang.md")
+	r.Assume("HISTORY part: a successful dump must be byte-identical to the dump of a structurally equal value freshly built in a runtime that never saw a failing dump; a finite acyclic value must never be refused; a refusal must not claim a cycle ('contains itself' - the one place message text is read, because the clause is about the stated reason) unless the value has one. What a dump of NaN/Inf/a function/a cyclic value does is otherwise unspecified (no panic; no invalid document). The whole history space runs single-goroutine in a child process with GOMAXPROCS=1 GOGC=off (collections only between histories) so that reuse of pooled encoder state is deterministic; the in-process sub-space is labelled 'in-process' (reuse likely, not guaranteed)")
 	r.Assume("invalid documents must be rejected in every mode; the condition must be json:syntax-error unless :string-numbers is in force (the statement names only the default and :exact-integers modes)")
+
+	// ----- H: dump histories (child process + in-process sub-space)
+	waitHistories := x.startHistories()
 
 	// ----- V: scalars
 	ints := intSet()
@@ -413,6 +419,8 @@ func run(r *core.Run) {
 		}
 		return doc, toks
 	}, dl, 4)
+
+	waitHistories()
 
 	// ----- outcome classes (exact counts)
 	var keys []string
